@@ -454,3 +454,80 @@ Proof.
     + intros k Hk'. specialize (Hk (k + 1) ltac:(lia)). replace (a + s + k * s) with (a + (k + 1) * s) by ring. exact Hk.
     + lia.
 Qed.
+
+(* ---------- matches() on raw patterns ---------- *)
+Definition npat_sem (w d : Z) (p : npat) : bool :=
+  match p with NStr p => pat_sem p (d mod 2 ^ w) | NInt v => d =? v end.
+Definition npat_ok (sh : shape) (p : npat) : Prop :=
+  match p with NStr p => Z.of_nat (length p) = width sh | NInt _ => True end.
+
+Lemma mk_any_spec en l :
+  (forall m, In m l -> wf_expr m = true /\ ewidth m = 1 /\ exists b, denote en m = b2z b) ->
+  wf_expr (mk_any l) = true /\ denote en (mk_any l) = b2z (existsb (fun m => denote en m =? 1) l).
+Proof.
+  intros H. destruct l as [|p [|q r]].
+  - split; reflexivity.
+  - destruct (H p (or_introl eq_refl)) as (Hw & _ & b & Hb). split; [exact Hw|].
+    cbn [mk_any existsb]. rewrite Hb. destruct b; reflexivity.
+  - set (l := p :: q :: r) in *. change (mk_any l) with (EOp1 ORor (ECat l)). clearbody l. split.
+    + cbn [wf_expr]. rewrite andb_true_r. apply forallb_forall. intros m Hm. apply H; auto.
+    + cbn [denote den_op1]. rewrite cat_one_bits_zero.
+      * f_equal. clear -H. induction l as [|x l IH]; [reflexivity|].
+        cbn [forallb existsb]. rewrite negb_andb, IH by (intros m Hm; apply H; right; auto).
+        destruct (H x (or_introl eq_refl)) as (_ & _ & b & Hb). rewrite Hb. destruct b; reflexivity.
+      * apply Forall_forall. intros m Hm. apply H; auto.
+Qed.
+
+Lemma mk_match1n_spec en e p : wf_expr e = true -> env_ok en e -> npat_ok (shape_of e) p ->
+  wf_expr (mk_match1n e p) = true /\ ewidth (mk_match1n e p) = 1 /\
+  denote en (mk_match1n e p) = b2z (npat_sem (ewidth e) (denote en e) p).
+Proof.
+  intros Hwf Henv Hok. destruct p as [p|v].
+  - destruct (mk_match1_spec en e p Hwf Henv Hok) as (H1 & _ & H3 & H4). auto.
+  - destruct (const_auto_spec en v) as [Hc Hd]. split; [|split].
+    + cbn [mk_match1n wf_expr]. rewrite Hwf, Hc. reflexivity.
+    + reflexivity.
+    + cbn [mk_match1n denote den_op2]. rewrite Hd. reflexivity.
+Qed.
+
+(* e.matches(p1, ..., pn) after normalisation: 1 iff some string pattern matches e's bit pattern or some integer
+   pattern equals e's value *)
+Theorem mk_matches_n_spec en e ps : wf_expr e = true -> env_ok en e -> Forall (npat_ok (shape_of e)) ps ->
+  wf_expr (mk_matches_n e ps) = true /\
+  denote en (mk_matches_n e ps) = b2z (existsb (npat_sem (ewidth e) (denote en e)) ps).
+Proof.
+  intros Hwf Henv HF. unfold mk_matches_n.
+  destruct (mk_any_spec en (map (mk_match1n e) ps)) as [H1 H2].
+  - intros m Hm. apply in_map_iff in Hm. destruct Hm as (p & <- & Hp).
+    rewrite Forall_forall in HF. destruct (mk_match1n_spec en e p Hwf Henv (HF p Hp)) as (A & B & C).
+    split; [exact A|split; [exact B|]]. eexists; exact C.
+  - split; [exact H1|]. rewrite H2. f_equal.
+    clear H1 H2. induction ps as [|p ps IH]; [reflexivity|]. cbn [map existsb].
+    rewrite IH by (inversion HF; auto). f_equal.
+    destruct (mk_match1n_spec en e p Hwf Henv (Forall_inv HF)) as (_ & _ & C). rewrite C.
+    destruct (npat_sem (ewidth e) (denote en e) p); reflexivity.
+Qed.
+
+(* what _normalize_patterns lets through is well-sized (strings) *)
+Lemma normalize_patterns_ok sh : forall ps l, normalize_patterns sh ps = Some l -> Forall (npat_ok sh) l.
+Proof.
+  induction ps as [|p ps IH]; intros l H; cbn [normalize_patterns] in H.
+  - injection H as <-. constructor.
+  - destruct (normalize_pattern sh p) as [o|] eqn:Ep; [|discriminate].
+    destruct (normalize_patterns sh ps) as [l'|]; [|discriminate]. injection H as <-.
+    specialize (IH l' eq_refl). destruct o as [n|]; [|exact IH]. constructor; [|exact IH].
+    destruct p as [s|v]; cbn [normalize_pattern] in Ep.
+    + destruct (existsb _ s); [discriminate|].
+      destruct (Z.of_nat (length (pchar_strip s)) =? width sh) eqn:El; cbn [negb] in Ep; [|discriminate].
+      injection Ep as <-. cbn [npat_ok]. unfold pat_of_chars. rewrite map_length. lia.
+    + destruct (const_norm sh v =? v); cbn [negb] in Ep; [|discriminate]. injection Ep as <-. exact I.
+Qed.
+
+Theorem mk_matches_raw_spec en e raw r : wf_expr e = true -> env_ok en e -> mk_matches_raw e raw = Some r ->
+  exists ps, normalize_patterns (shape_of e) raw = Some ps /\ wf_expr r = true /\
+             denote en r = b2z (existsb (npat_sem (ewidth e) (denote en e)) ps).
+Proof.
+  intros Hwf Henv H. unfold mk_matches_raw in H. destruct (normalize_patterns (shape_of e) raw) as [ps|] eqn:En; [|discriminate].
+  injection H as <-. exists ps. split; [reflexivity|].
+  apply mk_matches_n_spec; auto. apply (normalize_patterns_ok _ _ _ En).
+Qed.
